@@ -46,6 +46,7 @@ type failure struct {
 type result struct {
 	Scenario   string    `json:"scenario"`
 	Bound      int       `json:"bound"`
+	Mode       string    `json:"mode"`
 	Executions int64     `json:"executions"`
 	Points     int64     `json:"points"`
 	Nodes      int64     `json:"nodes"`
@@ -77,7 +78,7 @@ func short(s string) string {
 	return s
 }
 
-func explore(sc *scenario, bound int, maxExecs int64) result {
+func explore(sc *scenario, bound int, maxExecs int64, delay bool) result {
 	start := time.Now()
 	vsched.NumProcs = sc.procs
 	res := result{Scenario: sc.name, Bound: bound}
@@ -89,7 +90,7 @@ func explore(sc *scenario, bound int, maxExecs int64) result {
 	}
 	outcomes := map[string]int{}
 	first := true
-	st := vsched.Explore(vsched.Options{Bound: bound, MaxExecs: maxExecs, MaxPoints: 50000}, body, func(x *vsched.Exec) {
+	st := vsched.Explore(vsched.Options{Bound: bound, MaxExecs: maxExecs, MaxPoints: 50000, Delay: delay}, body, func(x *vsched.Exec) {
 		add := func(kind, msg string) {
 			if len(res.Failures) < 5 {
 				res.Failures = append(res.Failures, failure{kind, msg, x.Choices()})
@@ -156,7 +157,12 @@ func main() {
 		if len(os.Args) > 4 {
 			maxExecs, _ = strconv.ParseInt(os.Args[4], 10, 64)
 		}
-		res := explore(sc, bound, maxExecs)
+		delay := len(os.Args) > 5 && os.Args[5] == "delay"
+		res := explore(sc, bound, maxExecs, delay)
+		res.Mode = "preemption-bounded"
+		if delay {
+			res.Mode = "delay-bounded"
+		}
 		b, _ := json.Marshal(res)
 		fmt.Println(string(b))
 	case "replay":
